@@ -648,6 +648,144 @@ def run_return_early(run, tag="c12e"):
         shutil.rmtree(root, ignore_errors=True)
 
 
+def run_inplace_identity(run):
+    """`_fast_apply(fn, inplace=True, num_threads=k)` / `apply(fn, inplace=True, num_threads=k)` must do what the sequential form does
+    to the *objects*: the results are written **into** the existing leaves (same tensor objects afterwards, every other handle on
+    their memory — a view taken before, another mapping of the file, a second handle on the shared memory — sees the new values),
+    on plain, memory-mapped and shared-memory tensordicts, `checked` on and off. Compared with the num_threads=0 report."""
+    from tensordict import MemoryMappedTensor, TensorDict
+    rng = run.rng
+    quick = run.tier == "quick"
+    root = BUILD / "tmp" / f"c12i_{run.seed}_{run.tier}"
+    shutil.rmtree(root, ignore_errors=True)
+    root.mkdir(parents=True, exist_ok=True)
+
+    def make(shape_seed):
+        n = 3 + shape_seed % 3
+        return TensorDict({"a": torch.arange(float(n)), "b": {"c": torch.ones(n, 2), "d": {"e": torch.zeros(n, dtype=torch.int64)}},
+                           "z": torch.arange(n, dtype=torch.int32)}, batch_size=[n])
+
+    def fn(x):
+        return x + 1
+
+    def report(kind, api, checked, nt, tag, seed_):
+        td = make(seed_)
+        d = root / f"{tag}"
+        if kind == "memmap":
+            td = td.memmap_(d)
+        elif kind == "shared":
+            td = td.share_memory_()
+        if td.is_locked:
+            td.unlock_()
+        leaves = dict(td.items(True, True))
+        handles = {k: v.view(-1) if kind == "plain" else v for k, v in leaves.items()}     # other handles on the same memory
+        expected = {k: (v + 1).clone() for k, v in leaves.items()}
+        with time_limit(120):
+            if api == "_fast_apply":
+                res = td._fast_apply(fn, inplace=True, num_threads=nt, checked=checked)
+            else:
+                res = td.apply(fn, inplace=True, num_threads=nt)
+        rep = {"returns_self": res is td,
+               "same_leaf_objects": all(td.get(k) is v for k, v in leaves.items()),
+               "handles_see_update": all(bool((handles[k].reshape(expected[k].shape) == expected[k]).all()) for k in leaves),
+               "values": all(bool((td.get(k) == expected[k]).all()) for k in leaves)}
+        if kind == "memmap":
+            rep["leaves_still_memory_mapped"] = all(isinstance(v, MemoryMappedTensor) for v in td.values(True, True))
+            disk = TensorDict.load_memmap(d)
+            rep["files_updated"] = all(bool((disk.get(k) == expected[k]).all()) for k in leaves)
+        if kind == "shared":
+            rep["leaves_still_shared"] = all(v.is_shared() for v in td.values(True, True))
+        shutil.rmtree(d, ignore_errors=True)
+        return rep
+
+    try:
+        it = 0
+        for kind in ("plain", "memmap", "shared"):
+            for api, checked in (("_fast_apply", True), ("_fast_apply", False), ("apply", None)):
+                seed_ = rng.randrange(100)
+                try:
+                    ref = report(kind, api, checked, 0, f"r{it}", seed_)
+                except TimeoutError as e:
+                    raise Infra(f"in-place apply timed out: {e}")
+                for nt in ((1, 2, 4) if not quick else (1, rng.choice([2, 4]))):
+                    it += 1
+                    case = {"container": kind, "api": api, "checked": checked, "num_threads": nt}
+                    run.case(("inplace-identity", kind, api, checked, nt))
+                    try:
+                        got = report(kind, api, checked, nt, f"t{it}", seed_)
+                    except TimeoutError as e:
+                        raise Infra(f"in-place apply timed out: {e}")
+                    except Exception as e:  # noqa: BLE001
+                        got = {"raised": f"{type(e).__name__}: {str(e)[:120]}"}
+                    if got == ref:
+                        run.oracle_ok("apply_inplace_writes_through")
+                    else:
+                        diff = {k: (ref.get(k), got.get(k)) for k in set(ref) | set(got) if ref.get(k) != got.get(k)}
+                        run.oracle_fail("apply_inplace_writes_through", case,
+                                        f"in-place apply on a {kind} tensordict with num_threads={nt} differs from num_threads=0 in (sequential, threaded): {diff}",
+                                        f"inplace-identity:{kind}:{api}")
+    finally:
+        shutil.rmtree(root, ignore_errors=True)
+
+
+def run_existsok(run, tag="c12x"):
+    """memmap / memmap_ / memmap_like(existsok=False) into a directory that holds a former save: the outcome (raise or write) and the
+    content of the directory afterwards must be those of the num_threads=0 form (which refuses and leaves the old files alone)."""
+    from tensordict import TensorDict
+    rng = run.rng
+    quick = run.tier == "quick"
+    root = BUILD / "tmp" / f"{tag}_{run.seed}_{run.tier}"
+    shutil.rmtree(root, ignore_errors=True)
+    root.mkdir(parents=True, exist_ok=True)
+    from c11_canon import canon, first_diff
+    opts = dict(lock=False, names=False, device=False)
+
+    def make(off, n):
+        return TensorDict({"a": torch.arange(float(n)) + off, "b": {"c": torch.ones(n, 2) + off, "k": torch.zeros(n, dtype=torch.int16) + off}}, batch_size=[n])
+
+    def attempt(api, existsok, nt, former, tag_, n):
+        d = root / tag_
+        if former:
+            make(0, n).memmap(d)
+        new = make(10, n)
+        try:
+            with time_limit(120):
+                getattr(new, api)(d, existsok=existsok, num_threads=nt)
+            outcome = "returned"
+        except TimeoutError as e:
+            raise Infra(f"{api} timed out: {e}")
+        except Exception as e:  # noqa: BLE001
+            outcome = "raised " + type(e).__name__
+        try:
+            disk = canon(TensorDict.load_memmap(d), **opts) if d.exists() and (d / "meta.json").exists() else "no directory"
+        except Exception as e:  # noqa: BLE001
+            disk = "load raised " + type(e).__name__
+        shutil.rmtree(d, ignore_errors=True)
+        return [outcome, disk if api != "memmap_like" or outcome != "returned" else "contentless"]
+
+    try:
+        it = 0
+        for api in ("memmap", "memmap_", "memmap_like", "save"):
+            for existsok in (False, True):
+                for former in (True, False):
+                    n = rng.choice([3, 4])
+                    ref = attempt(api, existsok, 0, former, f"r{it}", n)
+                    for nt in ((2, 4) if not quick else (rng.choice([2, 4]),)):
+                        it += 1
+                        case = {"api": api, "existsok": existsok, "former_save": former, "num_threads": nt}
+                        run.case(("existsok", api, existsok, former, nt))
+                        got = attempt(api, existsok, nt, former, f"t{it}", n)
+                        if got == ref:
+                            run.oracle_ok("existsok_threads_eq_single")
+                        else:
+                            run.oracle_fail("existsok_threads_eq_single", case,
+                                            f"{api}(existsok={existsok}, num_threads={nt}) into a directory {'holding a former save' if former else 'that is new'}: "
+                                            f"{got[0]}, single-threaded: {ref[0]}; directory afterwards: {first_diff(ref[1], got[1]) if isinstance(ref[1], list) and isinstance(got[1], list) else (ref[1], got[1])}",
+                                            f"existsok:{api}")
+    finally:
+        shutil.rmtree(root, ignore_errors=True)
+
+
 def run_threads(run, drv):
     import warnings
     with warnings.catch_warnings():
@@ -655,3 +793,5 @@ def run_threads(run, drv):
         run_apply(run, drv)
         run_writers(run, drv)
         run_return_early(run)
+        run_inplace_identity(run)
+        run_existsok(run)
